@@ -3,12 +3,15 @@ import Ecal.Lemmas.C06Guards
 import Ecal.Model.Eval
 import Ecal.Lemmas.C06NoPanic
 import Ecal.Lemmas.C06FragB
+import Ecal.Lemmas.C06Bridge
+import Ecal.Lemmas.C06Validate
+import Ecal.Props.C07
 /-!
 C06 — no ECAL program, sink attribute or event can crash the host process.
 
 * `prims_guarded`  every guarded call site of a panicking Go primitive never yields `panic`
 * `builtin_total`  every modelled builtin × every argument vector of any length: result ≠ panic
-* `eval_never_panics_partial`  the shared evaluator model never yields `panic` on well-formed trees of
+* `eval_never_panics_frag`  the shared evaluator model never yields `panic` on well-formed trees of
   the stated sub-language (see the docstring for what is missing from the full statement)
 * `error_in_try_catchable`  an error of the try body reaches the except dispatch
 * negative witnesses: the unguarded copies of the repaired sites do panic
@@ -159,12 +162,9 @@ theorem addFunc_total (args : List PVal) (hn : ∀ a ∈ args, a.NumOK) : isPani
           · simp [isPanic]
           · next hg =>
             simp at hg
-            have hi1 := hsucc hg.1
-            have hlen : (xs ++ [PVal.num 0 1]).length = xs.length + 1 := by simp
-            obtain ⟨s1, hs1⟩ := goSlice_ok (xs ++ [PVal.num 0 1]) i1 (xs ++ [PVal.num 0 1]).length (by rw [hlen]; omega)
-            obtain ⟨s2, hs2⟩ := goSlice_ok (xs ++ [PVal.num 0 1]) i (xs ++ [PVal.num 0 1]).length (by rw [hlen]; omega)
-            obtain ⟨s3, hs3⟩ := goIndex_ok (xs ++ [PVal.num 0 1]) i (by rw [hlen]; omega)
-            simp only [hs1, hs2, hs3]
+            obtain ⟨s1, hs1⟩ := goSlice_ok xs 0 i (by omega)
+            obtain ⟨s2, hs2⟩ := goSlice_ok xs i xs.length (by omega)
+            simp only [hs1, hs2]
             simp [isPanic]
         · simp [hm, isPanic]
       · simp [isPanic]
@@ -231,7 +231,7 @@ theorem rangeFunc_total (args : List PVal) (hn : ∀ a ∈ args, a.NumOK) : isPa
     `0 ≤ int(x) → int(x) ≤ int(x+1) ≤ int(x)+1` for number arguments (true for every float64, NaN and ±Inf
     included, on every platform). This is a statement about the TRANSCRIPTION; it is compared with Go only
     where the driver falls back to it (≈13 % of the builtin cases); the builtins the correspondence compares
-    everywhere are `Ecal.Ev`'s `lenB addB delB concatB newB` (see `eval_never_panics_partial`: calls are the
+    everywhere are `Ecal.Ev`'s `lenB addB delB concatB newB` (see `eval_never_panics_frag`: calls are the
     remaining gap). `new` is not transcribed here any more (the model is `Ecal.Ev.newB`). -/
 theorem builtin_total (name : String) (args : List PVal) (hn : ∀ a ∈ args, a.NumOK) (r : R PVal)
     (h : builtin name args = some r) : isPanic r = false := by
@@ -273,8 +273,8 @@ open Ecal.GoPrim Ecal.Lemmas.C06Guards in
 theorem guards_sufficient :
     (∀ xs fld, noPanic (Site.listRead xs fld)) ∧
     (∀ xs fld v, noPanic (Site.listWrite xs fld v)) ∧
-    (∀ (b : List Ecal.Ev.Val) (l : Nat) (i : Int), l ≤ b.length → noPanic (Site.del b l i)) ∧
-    (∀ cur v i, noPanic (Site.insert cur v i)) ∧
+    (∀ xs i, noPanic (Site.del xs i)) ∧
+    (∀ xs v i, noPanic (Site.insert xs v i)) ∧
     (∀ kvs k v err, err ≠ Ecal.Ev.Sig.panic → noPanic (Site.mapLit kvs k v err)) ∧
     (∀ a b err, err ≠ Ecal.Ev.Sig.panic → noPanic (Site.modint a b err)) ∧
     (∀ a b deep, noPanic (Site.valuesEqual a b deep)) ∧
@@ -286,8 +286,9 @@ open Ecal.GoPrim Ecal.Lemmas.C06Guards Ecal.Ev in
 /-- REFINEMENT. The evaluator model `Ecal.Ev` — the model that is compared with Go on every run — computes
     exactly these sites where the Go code has them: its list read (`listIndex`, then the backing array) is
     `Site.listRead` on the slice's elements; its map-literal step, its `%`, its operand match and the
-    comparable branch of its equality are the sites; `delAt` writes the backing array `Site.del` computes
-    (`del_eq`). So a difference between a guard of /repo and the guard in the site shows up in the
+    comparable branch of its equality are the sites; `delAt` / `insertAt` (after 4ad50aa: new lists) store exactly
+    what `Site.del` / `Site.insert` compute on the slice's elements (`del_eq`, `insert_eq`, `delAt_backing`,
+    `insertAt_backing`). So a difference between a guard of /repo and the guard in the site shows up in the
     correspondence run, and `guards_sufficient` is a statement about the compared model. -/
 theorem model_is_guard_then_primitive :
     (∀ (fld : List Nat) (b : List Val) (l : Nat) (s : St), l ≤ b.length →
@@ -297,26 +298,30 @@ theorem model_is_guard_then_primitive :
     (∀ a b eA eB, Site.numOperands a b eA eB =
       (match a, b with | .num x, .num y => .ok (x, y) | .num _, _ => .error eB | _, _ => .error eA)) ∧
     (∀ a b deep, (sameDyn a b && uncomparable a) = false → Site.valuesEqual a b deep = .ok (keyEq a b)) ∧
-    (∀ (b : List Val) (l : Nat) (i : Int), l ≤ b.length → Site.del b l i = if i < 0 ∨ i ≥ l then .error (plain "Out of bounds access to list")
-      else .ok (b.take i.toNat ++ (b.take l).drop (i.toNat + 1) ++ b.drop (l - 1))) :=
+    (∀ (xs : List Val) (i : Int), Site.del xs i = if i < 0 ∨ i ≥ xs.length then .error (plain "Out of bounds access to list")
+      else .ok (xs.take i.toNat ++ xs.drop (i.toNat + 1))) ∧
+    (∀ (xs : List Val) (v : Val) (i : Int), Site.insert xs v i = if i < 0 ∨ i > xs.length then .error (plain "Out of bounds access to list")
+      else .ok (xs.take i.toNat ++ [v] ++ xs.drop i.toNat)) :=
   ⟨fun fld b l s h => listRead_refines fld b l h s, mapLit_refines, modint_refines, numOperands_refines,
-   valuesEqual_refines, fun b l i h => del_eq b l i h⟩
+   valuesEqual_refines, del_eq, insert_eq⟩
 
 open Ecal.GoPrim Ecal.Lemmas.C06Guards in
 /-- NECESSITY (negative witnesses). The same sites WITHOUT their guard — the code before ee44ab4 — panic on
-    the inputs of the repaired defects: `a[-5]` read and write on a one-element list, `del([1], 5)`,
-    `add([1], 2, 7)`, `{[1]:2}`, `5 % 0`, `[1] == [1]`, an unchecked operand assertion. A proof of
+    the inputs of the repaired defects: `a[-5]` read and write on a one-element list, `del([1], 5)` and
+    `add([1], 2, 7)` (the current copying code without its test AND the in-place code before ee44ab4), `{[1]:2}`, `5 % 0`, `[1] == [1]`, an unchecked operand assertion. A proof of
     `guards_sufficient` that did not use the guards would prove these too — it cannot. -/
 theorem guards_necessary :
     Site.listReadUnguarded [Ecal.Ev.Val.null] [45, 53] = .error Ecal.Ev.Sig.panic ∧
     Site.listWriteUnguarded [Ecal.Ev.Val.null] [45, 53] Ecal.Ev.Val.null = .error Ecal.Ev.Sig.panic ∧
-    Site.delUnguarded [Ecal.Ev.Val.null] 1 5 = .error Ecal.Ev.Sig.panic ∧
-    Site.insertUnguarded [Ecal.Ev.Val.null, Ecal.Ev.Val.null] Ecal.Ev.Val.null 7 = .error Ecal.Ev.Sig.panic ∧
+    Site.delUnguarded [Ecal.Ev.Val.null] 5 = .error Ecal.Ev.Sig.panic ∧
+    Site.delOldUnguarded [Ecal.Ev.Val.null] 1 5 = .error Ecal.Ev.Sig.panic ∧
+    Site.insertUnguarded [Ecal.Ev.Val.null] Ecal.Ev.Val.null 7 = .error Ecal.Ev.Sig.panic ∧
+    Site.insertOldUnguarded [Ecal.Ev.Val.null, Ecal.Ev.Val.null] Ecal.Ev.Val.null 7 = .error Ecal.Ev.Sig.panic ∧
     Site.mapLitUnguarded [] (Ecal.Ev.Val.list 1 1) Ecal.Ev.Val.null = .error Ecal.Ev.Sig.panic ∧
     Site.modintUnguarded 5 0 = .error Ecal.Ev.Sig.panic ∧
     Site.valuesEqualUnguarded (Ecal.Ev.Val.list 1 1) (Ecal.Ev.Val.list 2 1) = .error Ecal.Ev.Sig.panic ∧
     Site.numOperandsUnguarded (Ecal.Ev.Val.num 1) (Ecal.Ev.Val.str []) = .error Ecal.Ev.Sig.panic :=
-  ⟨witness_listRead, witness_listWrite, witness_del, witness_insert, witness_mapLit, witness_modint,
+  ⟨witness_listRead, witness_listWrite, witness_del, witness_del_old, witness_insert, witness_insert_old, witness_mapLit, witness_modint,
    witness_valuesEqual, witness_numOperands⟩
 
 /-! ### the evaluator -/
@@ -338,6 +343,41 @@ theorem error_in_try_catchable (body : M Val) (handlers : List Handler) (oth : O
 /-- non-vacuity: a division by … a non-number inside try, bare except: the handler runs -/
 example : ∃ s', (tryCore (throw (Sig.err ⟨"Operand is not a number", 1, 1⟩ none))
       [fun _ => pure (some (Val.num 7))] none).run.run {} = (.ok (Val.num 7), s') := ⟨_, rfl⟩
+
+/-- **eval_never_panics.** For EVERY tree the parser model returns (any token list), every scope, every fuel and
+    every state satisfying `Inv`, the evaluator model does not end in `panic`, and `Inv` holds afterwards.
+    Chain: C07's `parse_wellformed_strict` (every returned tree is `WellFormedRoot`) → `wellformed_frag`
+    (`Lemmas/C06Bridge.lean`: strictly well-formed trees are in `Frag`, induction on the size of the tree, one case
+    per node kind) → `eval_never_panics_frag`. Constructs outside the model (`sink import mutex like`, builtins the
+    model does not have) end in `unsupported`, never `panic`; what the statement says about the CODE and what it
+    needs besides (value-level guards, the two recorded findings) is spelled out at `eval_never_panics_frag`. -/
+theorem eval_never_panics (ts : List Ecal.Lex.Tok) (t : Ecal.Parse.Node)
+    (hparse : Ecal.Parse.parseToks ts = (some t, none)) (f sc : Nat) (s : St) (hs : Inv s) :
+    ((eval f sc t).run.run s).1 ≠ .error Sig.panic ∧ Inv ((eval f sc t).run.run s).2 :=
+  eval_frag_no_panic f sc t (wellformed_frag t (Ecal.Props.C07.parse_wellformed_strict ts t hparse)) s hs
+
+/-- **validate_never_panics.** For every tree the parser model returns, the validation the C06 driver runs
+    (`Ecal.ValidateS.validateS`: the structural twin of the shared model's `partial def validate`, cross-checked
+    against it by the driver on every case and compared with Go's `Validate` through the outcome class) ends in a
+    value or an error, never in a panic, for every fuel. -/
+theorem validate_never_panics (ts : List Ecal.Lex.Tok) (t : Ecal.Parse.Node)
+    (hparse : Ecal.Parse.parseToks ts = (some t, none)) (k : Nat) :
+    Ecal.ValidateS.validateS k t ≠ .error Sig.panic := by
+  have hw := Ecal.Props.C07.parse_wellformed_strict ts t hparse
+  simp only [Ecal.Parse.WellFormedRoot, Bool.and_eq_true] at hw
+  intro he
+  exact validateS_no_panic k t hw.1 _ he rfl
+
+/-- `Inv` holds for the state a run starts from when the trees of the interpolation table are parser results too
+    (they are: `evPayload` builds the table with the same parser) and no function has been declared yet. -/
+theorem inv_initial (interp : List (List Nat × InterpEntry))
+    (h : ∀ code n, (code, InterpEntry.ast n) ∈ interp → ∃ ts, Ecal.Parse.parseToks ts = (some n, none)) :
+    Inv { interp := interp } := by
+  constructor
+  · intro fr hfr; simp at hfr
+  · intro code n hm
+    obtain ⟨ts, hts⟩ := h code n hm
+    exact wellformed_frag n (Ecal.Props.C07.parse_wellformed_strict ts n hts)
 
 /-- The evaluator model never yields `panic` on the fragment `Frag` (all constructs of the model, calls included).
 
@@ -368,17 +408,17 @@ example : ∃ s', (tryCore (throw (Sig.err ⟨"Operand is not a number", 1, 1⟩
     * `try` with every clause shape (`except { }`, `except e { }`, `except as e { }`, typed `except "T", "U"
       [as e] { }`, `otherwise`, `finally`);
     * function declarations (named / anonymous, parameters with and without defaults).
-    REMAINING: the bridge from the parser (`WellFormed n → Frag n`, C07's predicate) is not proved — instead
-    `fragB` decides membership and the driver reports the measured share of generated trees inside `Frag`
-    (evidence `frag_share`); `validate` is a `partial def` of the shared model (not provable; tested);
+    The bridge from the parser is `wellformed_frag` (→ `eval_never_panics`); `fragB` decides membership on the
+    trees of the REAL Go parser (driver: `frag=1`, evidence `frag_share`), which ties the parser MODEL's claim to
+    the real parser's output on every generated case. `validate`: see `validate_never_panics`.
     sink / import / mutex are not in the model (engine path: test families A, E, K, modes s/d/w). -/
-theorem eval_never_panics_partial (f sc : Nat) (n : Ecal.Parse.Node) (hn : Frag n) (s : St) (hs : Inv s) :
+theorem eval_never_panics_frag (f sc : Nat) (n : Ecal.Parse.Node) (hn : Frag n) (s : St) (hs : Inv s) :
     ((eval f sc n).run.run s).1 ≠ .error Sig.panic ∧ Inv ((eval f sc n).run.run s).2 :=
   eval_frag_no_panic f sc n hn s hs
 
 /-- The decidable form the driver uses: `fragB` (run on the tree the REAL parser produced for every generated
     case; `frag=1` in the driver output, share in the evidence) implies the hypothesis of
-    `eval_never_panics_partial`. -/
+    `eval_never_panics_frag`. -/
 theorem eval_never_panics_checked (k f sc : Nat) (n : Ecal.Parse.Node) (hb : Ecal.FragB.fragB k n = true) (s : St) (hs : Inv s) :
     ((eval f sc n).run.run s).1 ≠ .error Sig.panic ∧ Inv ((eval f sc n).run.run s).2 :=
   eval_frag_no_panic f sc n (fragB_sound k n hb) s hs
